@@ -65,7 +65,7 @@ func sites(c *copyx.Case, d *gen.DAG) []site {
 			}
 			continue
 		}
-		out = append(out, site{"src", "Fetch", id, []string{"before", "after"}})
+		out = append(out, site{"src", "Fetch", id, []string{"before", "after", "mid"}})
 		out = append(out, site{"dst", "Push", id, []string{"before", "after"}})
 		if c.Callbacks {
 			out = append(out, site{"cb", "PreCopy", id, []string{"before"}}, site{"cb", "PostCopy", id, []string{"before"}})
@@ -187,7 +187,7 @@ func Run(e *copyx.Env, c *copyx.Case, leg string) (res vt.Result, fail *vt.Fail)
 	for i, ft := range c.Faults {
 		if e.Rec.Fired[i] {
 			res.Classes = append(res.Classes, "fired-"+ft.Side+"-"+ft.Op+"-"+ft.When+"-"+ft.Kind)
-			if !(ft.Kind == "cancel" && ft.When == "after") {
+			if !(ft.Kind == "cancel" && ft.When == "after") && !(ft.When == "mid" && d.Nodes[ft.Node].Desc.Size == 0) {
 				mustFail = true
 			}
 		}
